@@ -10,7 +10,7 @@ META = dict(
                        "pydra.engine.job.Job.__init__ / Task.__call__ (h_run_*: violations reported before any execution)"],
     stubs=["h_run_* conditions: vf/engine.py"],
     outside=["values for which 'set' is ambiguous in the documentation ('' and 0): every string/int is drawn by symbolic index from "
-             "{None} + allowed values + one other value", "more than 5 fields, 2 alternatives x 2 requirements, 2 exclusive groups"],
+             "{None} + allowed values + one other value", "more than 5 fields, 2 alternatives x 2 requirements, 3 exclusive groups (disjoint or nested)", "false rejections of split tasks (a StateArray counts as set on the un-split check): the property states when a task may execute, not when it must"],
     assumptions=["a field is 'set' when its value is neither None nor False"],
 )
 
@@ -92,6 +92,42 @@ def build(tier, seed, exclude):
             return "rule-violating inputs %r: raised %r after %d body execution(s)" % (vals, raised, len(bodies))
         return None
     """)
+    # split over a field that takes part in the rules: an element that violates them must be reported before anything runs
+    g.raw("""
+    def _run_split(task_cls, spec, raw, fi, v2):
+        vals = T.real({n: RL.to_value(k, r) for (n, k), r in zip(spec["fields"], raw)})
+        fname, fkind = spec["fields"][fi]
+        elems = [vals[fname], T.real(RL.to_value(fkind, v2))]
+        others = {n: v for n, v in vals.items() if n != fname}
+        E.reset(); R.clear()
+        d = E.scratch()
+        raised = None
+        try:
+            task_cls(**others).split(**{fname: elems})(cache_root=d, worker="debug")
+        except Exception as e:
+            raised = e
+        finally:
+            E.cleanup(d)
+        T.reach()
+        bad = [e for e in elems if not RL.rule_holds(spec, dict(others, **{fname: e}))]
+        bodies = [ev for ev in R.LOG if ev[0] == "Rules"]
+        if bad and (raised is None or bodies):
+            return "split of %s over %r with %r: element(s) %r violate the rules, raised %r after %d body execution(s)" % (fname, elems, others, bad, raised, len(bodies))
+        return None
+    """)
+    for d in range(3 if quick else 10):
+        spec = specs[d]
+        nf = len(spec["fields"])
+        params = ", ".join(f"{n}: {'bool' if k == 'bool' else 'int'}" for n, k in spec["fields"]) + ", fi: int, v2: int"
+        pre = [" and ".join(f"0 <= {n} < 4" for n, k in spec["fields"] if k != "bool") or "True", f"0 <= fi < {nf} and 0 <= v2 < 4"]
+        raw = "[" + ", ".join(n for n, _ in spec["fields"]) + "]"
+        g.cond(f"h_run_split{d:03d}", params, pre, f"""
+            fi = T.real(fi)
+            v2r = T.real(v2)
+            kind = _SPEC{d}["fields"][fi][1]
+            err = _run_split(_TASK{d}, _SPEC{d}, {raw}, fi, (v2r % 2 == 1) if kind == "bool" else v2r)
+            return T.fail(err) if err else True
+        """, timeout=(60 if quick else 240))
     for d in range(2 if quick else 8):
         spec = specs[d]
         params = ", ".join(f"{n}: {'bool' if k == 'bool' else 'int'}" for n, k in spec["fields"])
